@@ -8,7 +8,11 @@ namespace CqlVerif.Prepared
 abbrev Host := Nat
 abbrev Stmt := Nat
 
-inductive Fail where | err | drop deriving Repr, DecidableEq
+/-- `err`: a retryable server error; `inv`: INVALID (never retried); `drop`: the connection is lost -/
+inductive Fail where | err | inv | drop deriving Repr, DecidableEq
+
+/-- statements 1, 2 are idempotent; 3 and above use `now()` -/
+def idem (k : Nat) : Bool := k < 3
 
 structure PState where
   hosts : List Host                       -- the load balancer's host list
@@ -19,7 +23,7 @@ structure PState where
   rr : Nat := 0                           -- query plans created so far
 
 inductive Reply where
-  | ok | prepared | unprepared | proxyerr
+  | ok | prepared | unprepared | proxyerr | err
   deriving Repr, DecidableEq
 
 def setHas (f : Host → Stmt → Bool) (h : Host) (k : Stmt) (v : Bool) : Host → Stmt → Bool :=
@@ -38,10 +42,16 @@ def execPlan (s : PState) (k : Stmt) : List Host → Reply × PState × List Hos
       -- UNPREPARED intercepted: PREPARE on the same connection, then re-execute there
       match s.failNext h with
       | none => (.ok, { s with has := setHas s.has h k true }, [h])
-      | some .err =>
+      | some .err | some .inv =>
+        -- a failed re-PREPARE moves the request on to the next host, whatever the error and whether or
+        -- not the statement is idempotent: the EXECUTE itself has not run anywhere
         let (r, s', hs) := execPlan { s with failNext := fun h' => if h' = h then none else s.failNext h' } k rest
         (r, s', h :: hs)
       | some .drop =>
+        if !idem k then
+          -- the connection is lost while the re-PREPARE is outstanding: OnClose of a non-idempotent request
+          (.proxyerr, { s with failNext := (fun h' => if h' = h then none else s.failNext h'), down := fun h' => h' = h ∨ s.down h' }, [h])
+        else
         let (r, s', hs) := execPlan { s with failNext := (fun h' => if h' = h then none else s.failNext h'),
                                              down := fun h' => h' = h ∨ s.down h' } k rest
         (r, s', h :: hs)
@@ -54,6 +64,7 @@ def prepPlan (s : PState) (k : Stmt) : List Host → Reply × PState
     else match s.failNext h with
       | none => (.prepared, { s with has := setHas s.has h k true, cache := fun k' => k' = k ∨ s.cache k' })
       | some .err => prepPlan { s with failNext := fun h' => if h' = h then none else s.failNext h' } k rest
+      | some .inv => (.err, { s with failNext := fun h' => if h' = h then none else s.failNext h' })
       | some .drop => prepPlan { s with failNext := (fun h' => if h' = h then none else s.failNext h'),
                                         down := fun h' => h' = h ∨ s.down h' } k rest
 
